@@ -22,13 +22,20 @@ TOL = 1e-11
 
 def rows_cfg(tier):
     R = []
-    def add(name, k, L, p, disp):
-        R.append({"row": name, "k": list(k), "L": L, "p": list(p), "disparity": disp, "mark_truncate": False, "maxmark": None})
+    def add(name, k, L, p, disp, tmark=False):
+        R.append({"row": name, "k": list(k), "L": L, "p": list(p), "disparity": disp, "mark_truncate": tmark, "maxmark": None})
     if tier == "quick":
         add("1D-k3-L2", (3,), 2, (2,), "inf")
         add("1D-k2-L3", (2,), 3, (1,), 1)
+        # refine(..., truncate=True): the marking only bounds the interactions of the *truncated* basis, HB functions
+        # interact across more levels than the disparity of the space
+        add("1D-k2-L3", (2,), 3, (2,), 1, tmark=True)
         add("2D-2x1-L2", (2, 1), 2, (2, 2), "inf")
     else:
+        add("1D-k2-L3", (2,), 3, (2,), 1, tmark=True)
+        add("1D-k2-L3", (2,), 3, (3,), 1, tmark=True)
+        add("1D-k2-L3", (2,), 3, (3,), 2, tmark=True)
+        add("2D-2x1-L2", (2, 1), 2, (2, 2), 1, tmark=True)
         for p in (1, 2, 3):
             add("1D-k3-L2", (3,), 2, (p,), "inf")
         add("1D-k2-L3", (2,), 3, (2,), "inf")
@@ -39,6 +46,14 @@ def rows_cfg(tier):
         add("2D-2x1-L2", (2, 1), 2, (2, 1), "inf")
         add("2D-2x2-L1", (2, 2), 1, (3, 2), "inf")
     return R
+
+
+def _refine(hs, marks):
+    """refine the way the row prescribes (plain or THB-admissible marking)"""
+    from props import c04
+    if c04._G["cfg"].get("mark_truncate"):
+        return hs.refine(marks, truncate=True)
+    return hs.refine(marks)
 
 
 FORMS = ["mass", "stiffness", "laplace_str", "convection", "reaction_f", "functional", "functional_para"]
@@ -179,7 +194,7 @@ def state_problems(case):
                     hs = hierarchical.HSpace(c04._G["kvs"], truncate=truncate, disparity=c04._G["disp"], bdspecs=bdspecs)
                     for ev in hist:
                         marks, _ = c04.marks_of(ev)
-                        hs.refine(marks)
+                        _refine(hs, marks)
                     T = hs.thb_to_hb().toarray() if truncate else None
                     want = ref if not truncate else (T.T @ ref @ T if arity == 2 else T.T @ ref)
                     tag = "thb" if truncate else "hb"
@@ -226,7 +241,7 @@ def state_problems(case):
             geo = make_geo("identity", M.dim)
             hs_f = hierarchical.HSpace(c04._G["kvs"], truncate=False, disparity=c04._G["disp"], bdspecs=[(0, 0)])
             for ev in hist:
-                hs_f.refine(c04.marks_of(ev)[0])
+                _refine(hs_f, c04.marks_of(ev)[0])
             A_f = got_general("mass", M.dim, hs_f, geo)
             # variants of the last refinement call: (a) as recorded, (b) split into two calls (first cell, then the
             # rest) so that the second call does not add a level -- with an assembly in between every two calls
@@ -238,13 +253,13 @@ def state_problems(case):
             for var in variants:
                 hs_w = hierarchical.HSpace(c04._G["kvs"], truncate=False, disparity=c04._G["disp"], bdspecs=[(0, 0)])
                 for ev in hist[:-1]:
-                    hs_w.refine(c04.marks_of(ev)[0])
+                    _refine(hs_w, c04.marks_of(ev)[0])
                 for ev in var:
                     got_general("mass", M.dim, hs_w, geo)
                     hs_w.dirichlet_dofs()
                     cells = [(lv, c) for lv, c in ev if lv < hs_w.numlevels and tuple(c) in {tuple(int(x) for x in cc) for cc in hs_w.active_cells(lv)}]
                     if cells:
-                        hs_w.refine(c04.marks_of(tuple(cells))[0])
+                        _refine(hs_w, c04.marks_of(tuple(cells))[0])
                 A_w = got_general("mass", M.dim, hs_w, geo)
                 ncmp += 1
                 if A_w.shape != A_f.shape or np.abs(A_w - A_f).max() > TOL * max(np.abs(A_f).max(), 1e-300):
@@ -330,10 +345,10 @@ def run(ctx):
     for case, (ncmp, probs) in zip(cases, par.pmap(_w, cases, min_parallel=8)):
         out.transitions += ncmp
         if case["history"]:
-            out.nontrivial.add((case["cfg"]["row"], tuple(case["cfg"]["p"]), str(case["cfg"]["disparity"]), repr(case["history"])))
+            out.nontrivial.add((case["cfg"]["row"], tuple(case["cfg"]["p"]), str(case["cfg"]["disparity"]), bool(case["cfg"].get("mark_truncate")), repr(case["history"])))
         out.outcomes.add(len(probs))
         for key, msg in probs:
-            out.add_violation(key, "%s p=%s disp=%s after %s: %s" % (case["cfg"]["row"], case["cfg"]["p"], case["cfg"]["disparity"], case["history"], msg), case)
+            out.add_violation(key, "%s p=%s disp=%s%s after %s: %s" % (case["cfg"]["row"], case["cfg"]["p"], case["cfg"]["disparity"], " refine(truncate=True)" if case["cfg"].get("mark_truncate") else "", case["history"], msg), case)
     out.evaluations = out.transitions
     out.sample(cases[0]); out.sample(cases[len(cases) // 2])
     out.rule = ("every reachable state of the listed C04 rows x forms {mass, stiffness (predefined and string), non-symmetric "
